@@ -352,11 +352,16 @@ fn ids_of(db: &Db, q: &str, params: &Params) -> Result<Vec<u32>, String> {
     v.sort();
     Ok(v)
 }
-fn write_stmt(db: &Db, q: &str, params: &Params) -> Result<u32, String> {
+/// `mixed`: through PreparedQuery::execute_mixed (the entry point of the C API) instead of execute_write
+fn write_stmt(db: &Db, q: &str, params: &Params, mixed: bool) -> Result<u32, String> {
     let snap = db.snapshot();
     let mut txn = db.begin_write();
     let p = prepare(q).map_err(|e| format!("prepare: {e}"))?;
-    let n = p.execute_write(&snap, &mut txn, params).map_err(|e| format!("exec: {e}"))?;
+    let n = if mixed {
+        p.execute_mixed(&snap, &mut txn, params).map(|x| x.1).map_err(|e| format!("exec: {e}"))?
+    } else {
+        p.execute_write(&snap, &mut txn, params).map_err(|e| format!("exec: {e}"))?
+    };
     txn.commit().map_err(|e| format!("commit: {e}"))?;
     Ok(n)
 }
@@ -573,6 +578,39 @@ fn main() {
     let mut hist: BTreeMap<String, u64> = BTreeMap::new();
     let mut nontrivial: BTreeSet<String> = BTreeSet::new();
     let (mut evaluations, mut fails) = (0u64, 0u64);
+    // ---- fixed probes outside the model (statements chaining two update clauses run only through
+    // execute_mixed): SET on a node deleted earlier in the same statement
+    {
+        let dir = tempfile::tempdir().unwrap();
+        let db = Db::open(dir.path().join("p")).unwrap();
+        let _ = write_stmt(&db, "CREATE (:LA {p0: 1})", &Params::new(), false);
+        let q = "MATCH (n:LA) DETACH DELETE n SET n.p0 = 5";
+        let res = write_stmt(&db, q, &Params::new(), true);
+        let d = dump(&db);
+        let input = json!({"history": ["CREATE (:LA {p0: 1})", q], "entry": "execute_mixed", "reported": format!("{:?}", res)});
+        match (&res, &d) {
+            (Ok(1), Ok(d)) if d.0.is_empty() => {}
+            (Err(_), Ok(d)) if d.0.len() == 1 => {}
+            (Ok(2), Ok(d)) if d.0.is_empty() => {
+                *hist.entry("known:K-C12-setafterdelete".into()).or_insert(0) += 1;
+                rep.fail(0, Some("K-C12-setafterdelete"), "SET on a node deleted earlier in the same statement is executed and counted", input);
+            }
+            _ => {
+                fails += 1;
+                rep.fail(0, None, &format!("DETACH DELETE n SET n.p0 = 5: reported {:?}, dump {:?}", res, d), input);
+            }
+        }
+        let q2 = "MATCH (n) SET n.p0 = 1 REMOVE n.p0";
+        if let Err(e) = write_stmt(&db, q2, &Params::new(), false) {
+            if e.contains("must be executed via execute_write") {
+                *hist.entry("known:K-C12-chained".into()).or_insert(0) += 1;
+                rep.fail(0, Some("K-C12-chained"), "execute_write rejects a statement with two update clauses", json!({"query": q2, "error": e}));
+            } else {
+                fails += 1;
+                rep.fail(0, None, &format!("{q2}: {e}"), json!({"query": q2}));
+            }
+        }
+    }
     for idx in 0..a.n {
         let dir = if std::path::Path::new("/dev/shm").is_dir() { tempfile::tempdir_in("/dev/shm").unwrap() } else { tempfile::tempdir().unwrap() };
         let db = Db::open(dir.path().join("g")).unwrap();
@@ -596,13 +634,15 @@ fn main() {
             let Some((q, params, st)) = g else { continue };
             *hist.entry(format!("stmt:{}", st.kind())).or_insert(0) += 1;
             let before = rf.clone();
-            let res = vh::catch(std::panic::AssertUnwindSafe(|| write_stmt(&db, &q, &params)));
+            let mixed = r.chance(1, 2);
+            *hist.entry(format!("entry:{}", if mixed { "execute_mixed" } else { "execute_write" })).or_insert(0) += 1;
+            let res = vh::catch(std::panic::AssertUnwindSafe(|| write_stmt(&db, &q, &params, mixed)));
             let res = match res { Ok(x) => x, Err(p) => { fails += 1; rep.fail(idx, None, &format!("panic in {q}: {p}"), json!({"log": log})); break; } };
             evaluations += 1;
             let expect = rf.exec(&st);
             if expect.is_none() { rf = before.clone(); }
             let d = match dump(&db) { Ok(d) => d, Err(e) => { fails += 1; rep.fail(idx, None, &format!("dump failed after {q}: {e}"), json!({"log": log})); break; } };
-            log.push(json!({"q": q, "stmt": format!("{:?}", st), "reported": format!("{:?}", res), "expected": expect}));
+            log.push(json!({"q": q, "entry": if mixed { "execute_mixed" } else { "execute_write" }, "stmt": format!("{:?}", st), "reported": format!("{:?}", res), "expected": expect}));
             let input = json!({"history": log});
             if evaluations <= 3 { rep.case(idx, input.clone()); }
             let (cn_, cr_) = coq_dump(&d);
